@@ -29,7 +29,7 @@ CHUNK = 10
 # object family
 
 FEATURES = ["tie", "slur", "tuplet", "grace", "repeat", "volta", "nav", "two_parts", "div_change", "staff2", "pickup", "dirs",
-            "overlap", "chord_unequal", "marks", "bare"]
+            "overlap", "chord_unequal", "marks", "bare", "open_dirs"]
 
 
 def score_spec(feats):
@@ -114,6 +114,12 @@ def score_spec(feats):
             if o.get("id") == "n2":
                 o["orn"] = ["mordent"]
         objs.append({"k": "fermata", "s": b0, "ref": "n1"})
+    if "open_dirs" in f:
+        # directions without an end (the exporters have to make one up - for the file, not for the argument)
+        objs.append({"k": "pedal", "s": b0, "e": None, "staff": 1})
+        objs.append({"k": "pedal", "s": b1, "e": None, "line": True, "staff": 1})
+        objs.append({"k": "wedge", "s": b2, "e": None, "dir": "-", "staff": 1})
+        objs.append({"k": "tempodir", "s": b1, "e": None, "text": "rit.", "staff": 1})
     if "bare" in f:
         # a part built by hand: no voice and no staff on its notes and rests
         for o in objs:
@@ -163,22 +169,29 @@ def perf_spec(variant):
         dict(id="p6", midi_pitch=70, note_on=2.0, note_off=3.0, velocity=64, track=0, channel=0),
     ]
     controls = []
-    if variant in ("pedal", "two"):
+    if variant in ("pedal", "two", "two_rev", "stale"):
         controls = [dict(number=64, value=100, time=0.4, track=0, channel=0), dict(number=64, value=0, time=1.2, track=0, channel=0),
                     dict(number=67, value=127, time=0.1, track=0, channel=0)]
-    return dict(notes=notes, controls=controls, two=(variant == "two"))
+    return dict(notes=notes, controls=controls, two=(variant in ("two", "two_rev")), rev=(variant == "two_rev"), stale=(variant == "stale"))
 
 
 def build_perf(spec):
     import copy
     import partitura.performance as P
 
-    pp = P.PerformedPart(copy.deepcopy(spec["notes"]), id="PP1", part_name="perf", controls=copy.deepcopy(spec["controls"]),
-                         programs=[dict(program=0, time=0.0, track=0, channel=0)])
+    kw = dict(track=1) if spec.get("rev") else {}
+    ctl = copy.deepcopy(spec["controls"])
+    pp = P.PerformedPart(copy.deepcopy(spec["notes"]), id="PP1", part_name="perf", controls=[] if spec.get("stale") else ctl,
+                         programs=[dict(program=0, time=0.0, track=0, channel=0)], **kw)
+    if spec.get("stale"):
+        # the pedal is added (and a note is lengthened) after the part was made, without assigning the threshold again:
+        # the stored sound_off values are those of the part without pedal; reading entry points must leave them alone
+        pp.controls.extend(ctl)
+        pp.notes[1]["note_off"] = 1.1
     parts = [pp]
     if spec["two"]:
         n2 = [dict(id="q1", midi_pitch=40, note_on=0.0, note_off=1.0, velocity=30, track=0, channel=1)]
-        parts.append(P.PerformedPart(n2, id="PP2", part_name="perf2"))
+        parts.append(P.PerformedPart(n2, id="PP2", part_name="perf2"))  # (track attribute 0: after PP1 when rev)
     return P.Performance(parts, id="perf")
 
 
@@ -373,8 +386,23 @@ def build_obj(case):
     if kind == "match":
         return (ir.build_score(score_spec(case["feats"])), build_perf(perf_spec(case["variant"])))
     if kind == "array":
+        import numpy as np
+
         sc = ir.build_score(score_spec(case["feats"]))
-        return sc.note_array() if case["variant"] == "score" else sc.parts[0].note_array(include_staff=True)
+        v = case["variant"]
+        if v == "score":
+            return sc.note_array()
+        if v == "part":
+            return sc.parts[0].note_array(include_staff=True)
+        na = sc.note_array()
+        if v == "wide":
+            # a hand-made array: the same fields declared with the platform's default types (int64 / float64)
+            dt = [(n, "i8" if na.dtype[n].kind in "iu" else ("f8" if na.dtype[n].kind == "f" else na.dtype[n])) for n in na.dtype.names]
+            return na.astype(dt)
+        if v == "reversed":
+            # rows in another order than (onset, pitch): what np.hstack of two parts' arrays gives
+            return np.ascontiguousarray(na[::-1])
+        raise ValueError(v)
     raise ValueError(kind)
 
 
@@ -691,11 +719,12 @@ def spaces(tier, seed):
     bases = PAIR_BASES if tier == "thorough" else [PAIR_BASES[0], PAIR_BASES[1 + seed % (len(PAIR_BASES) - 1)]]
     sp.append(Space("score-ordered-pairs", [dict(kind="score", feats=f, seq=[a, b]) for f in bases for a in names_s for b in names_s if a != b], True,
                     "%d feature-rich scores x all ordered pairs of distinct entry points (%d)" % (len(bases), len(names_s))))
-    sp.append(Space("perf-sequences", [dict(kind="perf", variant=v, seq=[a, b]) for v in ("plain", "pedal", "two") for a in names_p for b in names_p], True,
-                    "3 performances x all ordered pairs (incl. equal) of %d entry points" % len(names_p)))
+    sp.append(Space("perf-sequences", [dict(kind="perf", variant=v, seq=[a, b]) for v in ("plain", "pedal", "two", "two_rev", "stale") for a in names_p for b in names_p], True,
+                    "5 performances (plain, pedal, two parts, two parts with descending track attributes, pedal and a note edit added after construction) x all ordered pairs (incl. equal) of %d entry points" % len(names_p)))
     mf = [["tie"], ["tie", "grace", "pickup"], ["staff2", "dirs"], ["marks"], ["marks", "bare"], ["marks", "bare", "grace"]]
-    sp.append(Space("match-sequences", [dict(kind="match", feats=f, variant=v, seq=[a, b]) for f in mf for v in ("plain", "pedal") for a in names_m for b in names_m], True,
-                    "6 scores x 2 performances x all ordered pairs of %d entry points" % len(names_m)))
+    PAIR_BASES[0].count("open_dirs") or PAIR_BASES[0].append("open_dirs")
+    sp.append(Space("match-sequences", [dict(kind="match", feats=f, variant=v, seq=[a, b]) for f in mf for v in ("plain", "pedal", "stale") for a in names_m for b in names_m], True,
+                    "6 scores x 3 performances x all ordered pairs of %d entry points" % len(names_m)))
     it = []
     for kind in ("score", "perf"):
         for n, k in ((1, 2), (2, 2), (3, 2), (1, 3), (2, 3)):
@@ -712,8 +741,8 @@ def spaces(tier, seed):
                     "estimate_voices (both modes), estimate_spelling, estimate_key called four times, alternately on the array and on a copy"))
     names_a = sorted(_names("array"))
     sp.append(Space("array-sequences", [dict(kind="array", feats=f, variant=v, seq=[a, b]) for f in ([], ["tie", "grace"], ["two_parts", "overlap"])
-                                         for v in ("score", "part") for a in names_a for b in names_a], True,
-                    "note arrays of 3 scores (score-level and part-level) x all ordered pairs (incl. equal) of %d entry points that take a "
+                                         for v in ("score", "part", "wide", "reversed") for a in names_a for b in names_a], True,
+                    "note arrays of 3 scores (score-level, part-level, re-declared with int64/float64 fields, rows reversed) x all ordered pairs (incl. equal) of %d entry points that take a "
                     "note array (time slices with and without clipping, piano roll, spelling, voices, key)" % len(names_a)))
     cc = [dict(kind="container", how=h, feats=f) for f in ([], ["two_parts"], ["two_parts", "repeat"], ["two_parts", "volta", "nav"], ["repeat", "staff2"])
           for h in ("constructed", "derived", "setitem")] + [dict(kind="container", how="performance", feats=[])]
